@@ -6,6 +6,7 @@ import (
 	"fmt"
 	"io"
 	stdlog "log"
+	"sort"
 	"strings"
 	"time"
 
@@ -147,8 +148,92 @@ func (w *c19World) request(name string, n int) *pb.SessionRequest {
 		return reqDec(nil)
 	case "empty-request":
 		return &pb.SessionRequest{}
+	case "empty-request(nil-encrypt)":
+		return &pb.SessionRequest{Request: &pb.SessionRequest_Encrypt{}}
+	case "empty-request(nil-decrypt)":
+		return &pb.SessionRequest{Request: &pb.SessionRequest_Decrypt{}}
+	case "get(nil-inner)":
+		return &pb.SessionRequest{Request: &pb.SessionRequest_GetSession{}}
+	}
+	if m, ok := c19RecordShapes[name]; ok {
+		r := cloneRec(w.own)
+		m(r)
+		return reqDec(r)
 	}
 	panic(name)
+}
+
+// c19RecordShapes are structurally malformed decrypt records (every optional sub-message / field absent in turn).
+var c19RecordShapes = map[string]func(r *pb.DataRowRecord){
+	"dec(zero-record)":        func(r *pb.DataRowRecord) { *r = pb.DataRowRecord{} },
+	"dec(no-key)":             func(r *pb.DataRowRecord) { r.Key = nil },
+	"dec(no-parent-meta)":     func(r *pb.DataRowRecord) { r.Key.ParentKeyMeta = nil },
+	"dec(no-key-bytes)":       func(r *pb.DataRowRecord) { r.Key.Key = nil },
+	"dec(no-data)":            func(r *pb.DataRowRecord) { r.Data = nil },
+	"dec(only-data)":          func(r *pb.DataRowRecord) { *r = pb.DataRowRecord{Data: r.Data} },
+	"dec(only-parent-meta)":   func(r *pb.DataRowRecord) { r.Data = nil; r.Key.Key = nil },
+	"dec(empty-parent-id)":    func(r *pb.DataRowRecord) { r.Key.ParentKeyMeta.KeyId = "" },
+	"dec(parent-created-0)":   func(r *pb.DataRowRecord) { r.Key.ParentKeyMeta.Created = 0 },
+	"dec(parent-created-min)": func(r *pb.DataRowRecord) { r.Key.ParentKeyMeta.Created = -1 << 63 },
+	"dec(truncated-data)":     func(r *pb.DataRowRecord) { r.Data = r.Data[:5] },
+	"dec(truncated-key)":      func(r *pb.DataRowRecord) { r.Key.Key = r.Key.Key[:5] },
+	"dec(one-byte-data)":      func(r *pb.DataRowRecord) { r.Data = []byte{1} },
+	"dec(long-parent-id)":     func(r *pb.DataRowRecord) { r.Key.ParentKeyMeta.KeyId = strings.Repeat("x", 1<<16) },
+}
+
+// c19Shapes: every malformed message shape in every protocol state, followed by ordinary requests (the stream must go on).
+func c19Shapes(r *Report, w *c19World, sigSeen map[string]bool) {
+	t0 := time.Now()
+	var shapes []string
+	for k := range c19RecordShapes {
+		shapes = append(shapes, k)
+	}
+	shapes = append(shapes, "empty-request(nil-encrypt)", "empty-request(nil-decrypt)", "get(nil-inner)")
+	sort.Strings(shapes)
+	prefixes := [][]string{{}, {"get(empty)"}, {"get(p1)"}, {"get(p1)", "enc"}, {"get(p1)", "dec(own)"}}
+	suffixes := [][]string{{}, {"enc"}, {"dec(own)"}, {"get(p1)", "enc"}}
+	n, nviol := 0, 0
+	for _, pre := range prefixes {
+		for _, sh := range shapes {
+			for _, sh2 := range append([]string{""}, shapes...) {
+				if sh2 != "" && len(pre) != 1 {
+					continue // pairs of malformed messages only right after the first request (keeps the product small)
+				}
+				for _, suf := range suffixes {
+					seq := append(append([]string{}, pre...), sh)
+					if sh2 != "" {
+						seq = append(seq, sh2)
+					}
+					seq = append(seq, suf...)
+					reqs := make([]*pb.SessionRequest, len(seq))
+					for i, nm := range seq {
+						reqs[i] = w.request(nm, i)
+					}
+					st, serr, pan := w.runStream(reqs)
+					n++
+					for _, v := range w.judge(seq, st, serr, pan) {
+						nviol++
+						sig := v.Sig
+						if !sigSeen[sig] {
+							sigSeen[sig] = true
+							r.Viols = append(r.Viols, Viol{Property: "C19", Harness: "C19/streams", Sig: sig, Msg: v.Msg, Ops: append([]string{}, seq...)})
+						}
+					}
+					if pan != "" {
+						if w2, err := newC19World(); err == nil {
+							*w = *w2
+						}
+					}
+				}
+			}
+		}
+	}
+	r.Runs = append(r.Runs, RunInfo{Name: "C19/message-shapes", Executions: n, States: len(shapes), Transitions: int64(n), Exhaustive: true, Violations: nviol,
+		Bound: fmt.Sprintf("%d malformed message shapes x 5 protocol-state prefixes x 4 continuations (+ all ordered pairs of shapes after the first request)", len(shapes)), WallS: time.Since(t0).Seconds()})
+	r.Evaluations += n
+	r.TracesValidated += n
+	r.DistinctNontrivial += n
+	r.Transitions += int64(n)
 }
 
 func isErrResp(r *pb.SessionResponse) bool { return r.GetErrorResponse() != nil }
@@ -188,7 +273,7 @@ func (w *c19World) judge(seq []string, st *memStream, err error, pan string) (vi
 	for i, name := range seq {
 		r := st.out[i]
 		switch {
-		case name == "empty-request":
+		case strings.HasPrefix(name, "empty-request"):
 			// exactly one (empty or error) response; nothing else is fixed by the statement
 		case strings.HasPrefix(name, "get"):
 			switch state {
@@ -197,7 +282,7 @@ func (w *c19World) judge(seq []string, st *memStream, err error, pan string) (vi
 					fail("second-get-accepted", "stream %v: request %d %s after a successful get-session was not answered with an error response: %v", seq, i, name, r)
 				}
 			case "uninit", "rejected":
-				if name == "get(empty)" {
+				if name != "get(p1)" {
 					if !isErrResp(r) {
 						fail("empty-partition-accepted", "stream %v: get-session with an empty partition id was accepted", seq)
 						state = "init"
@@ -240,6 +325,12 @@ func (w *c19World) judge(seq []string, st *memStream, err error, pan string) (vi
 			}
 			if d := r.GetDecryptResponse(); d == nil || !bytes.Equal(d.GetData(), w.ownData) {
 				fail("dec-own", "stream %v: decrypt of a genuine record answered with %v", seq, r)
+			}
+		case strings.HasPrefix(name, "dec(parent-created-"):
+			// the parent key's stamp is a lookup hint, not authenticated data: the SDK may still find the right key (stamp 0
+			// means "latest" to the key cache). Like the SDK, the sidecar answers with an error or with the genuine payload.
+			if !isErrResp(r) && !(state == "init" && bytes.Equal(r.GetDecryptResponse().GetData(), w.ownData)) {
+				fail("bad-record-accepted:"+name, "stream %v: %s in state %s answered with %v, want an error response or the genuine payload", seq, name, state, r)
 			}
 		default: // foreign / corrupt / empty records
 			if !isErrResp(r) {
@@ -359,6 +450,8 @@ func CheckC19(r *Report) {
 	if len(r.Samples) == 0 {
 		r.Samples = append(r.Samples, map[string]interface{}{"requests": []string{"get(p1)", "enc", "dec(own)"}})
 	}
+	c19Shapes(r, w, sigSeen)
+	r.Rule += " || PLUS message shapes: every structurally malformed decrypt record (each optional sub-message / field absent, truncated, empty or oversized) and typed-nil request bodies, in every protocol state, followed by ordinary requests on the same stream"
 	if r.TimeLeft() {
 		c19Sched(r)
 		r.Rule += " || PLUS two concurrent streams (each: get-session, encrypt; then get-session, decrypt, encrypt) on one AppEncryption over the instrumented SDK, every interleaving up to the preemption bound, with and without session caching"
